@@ -225,11 +225,66 @@ def c05_same_leaf(a: int, b: int, layout: int, virt: int, derive: int) -> bool:
     return ok
 
 
+SECOND_TEXTS = [
+    "class Plain { Plain(); Plain(int a); double value() const; static Plain Make(); int prop; }; double free1(double x);",
+    "virtual class Shape { Shape(); double area() const; }; virtual class Circle : Shape { Circle(double r); double radius() const; static Circle Unit(); };",
+    "namespace geo { virtual class Base { Base(); }; class Leaf : geo::Base { Leaf(); Leaf(int a, int b = 2); void put(int a) const; void put(double a, double b) const; }; void helper(int a); void helper(double a); }",
+    "class Ser { Ser(); void serialize() const; double w; }; virtual class Top { Top(); };",
+]
+
+
+def c05_second_wrap(a: int, b: int, boost: int) -> bool:
+    """
+    A toolbox generated by the SECOND `wrap()` call of one MatlabWrapper object (the object carries its ids and routine
+    table from call to call): in what that call writes, ids, cases and routines still agree — contiguous ids, one case
+    per call site, the case runs the routine carrying its id, and the routine is the one generated for the call site's
+    class, member and role.  The two files declare different names (the object accumulates: wrapping the same names
+    again overwrites the first call's files and leaves its cases without a call site — reuse of that kind is not claimed).
+    pre: 0 <= a < len(SECOND_TEXTS) and 0 <= b < len(SECOND_TEXTS) and a != b and 0 <= boost <= 1
+    post: _
+    """
+    a, b, boost = pick(a, 0, len(SECOND_TEXTS)), pick(b, 0, len(SECOND_TEXTS)), pick(boost, 0, 2)
+    with concrete():
+        import shutil
+        import tempfile
+        import gtwrap.matlab_wrapper.wrapper as _mw
+        from harness import pipe
+        d = tempfile.mkdtemp(prefix="c05_second_")
+        problems = []
+        had, old = "open" in _mw.__dict__, _mw.__dict__.get("open")
+        try:
+            srcs = []
+            for k, t in enumerate((SECOND_TEXTS[a], SECOND_TEXTS[b])):
+                srcs.append(os.path.join(d, "in%d.i" % k))
+                with open(srcs[-1], "w") as f:
+                    f.write(t)
+            w = pipe.new_matlab_wrapper(boost=bool(boost))
+            _mw.open = pipe._TplOpen(old or open)
+            w.wrap([srcs[0]], os.path.join(d, "out0"))
+            content = w.wrap([srcs[1]], os.path.join(d, "out1"))
+            files = {}
+            pipe.flatten_content(content, "", files)
+            problems = ms.check_dispatch(files, files.get("mod_wrapper.cpp", ""), None, (), None, bool(boost))
+        except Exception as ex:
+            problems.append("raised %r" % ex)
+        finally:
+            if had:
+                _mw.open = old
+            elif "open" in _mw.__dict__:
+                del _mw.open
+            shutil.rmtree(d, ignore_errors=True)
+        ok = not problems or _fail(first=SECOND_TEXTS[a], second=SECOND_TEXTS[b], problems=problems[:6])
+    reached({"a": a, "b": b, "boost": boost})
+    return ok
+
+
 def conds(tier):
     q = tier == "quick"
     t = (lambda x, y: x) if q else (lambda x, y: y)
     M = "harness.c05"
     return [
+        xh.Cond(M, "c05_second_wrap", t(200, 600), kind="shape-bounded", examples=["a=0, b=1, boost=0", "a=2, b=1, boost=1", "a=3, b=0, boost=1", "a=1, b=3, boost=0"],
+                bounds="%d ordered pairs of different interface files wrapped by one wrapper object x serialization: the toolbox of the second call" % (len(SECOND_TEXTS) * (len(SECOND_TEXTS) - 1))),
         xh.Cond(M, "c05_one_class", t(420, 3000), path_timeout=60, kind="shape-bounded", examples=["code=101, boost=1, ser=1, nsdepth=1", "code=383, boost=0, ser=0, nsdepth=2"],
                 bounds="all %d class shapes%s" % (NC, " x both serialization settings x serialize marker (namespace depth derived)" if not q else "; serialization / marker / namespace depth derived from the shape code")),
         xh.Cond(M, "c05_overload_groups", t(420, 1800), path_timeout=60, kind="shape-bounded", examples=["role=0, i=2, j=0, k=3, nsdepth=0", "role=0, i=0, j=1, k=3, nsdepth=0", "role=0, i=3, j=4, k=5, nsdepth=1", "role=0, i=1, j=3, k=5, nsdepth=0", "role=1, i=7, j=8, k=0, nsdepth=0", "role=0, i=8, j=7, k=3, nsdepth=1", "role=2, i=0, j=7, k=8, nsdepth=0", "role=3, i=7, j=2, k=8, nsdepth=0", "role=1, i=0, j=1, k=4, nsdepth=1", "role=3, i=5, j=2, k=6, nsdepth=2", "role=2, i=6, j=1, k=0, nsdepth=0"],
